@@ -1377,6 +1377,14 @@ impl CaState {
 				if !cfg_bool(&self.cfg, "cert_trailing_nl", true) {
 					pem = pem.trim_end().to_string();
 				}
+				// legal ways of ending / delimiting the chain (RFC 7468 is lax about end-of-line)
+				match cfg_str(&self.cfg, "chain_ending", "lf").as_str() {
+					"crlf" => pem = pem.replace('\n', "\r\n"),
+					"noeol" => pem = pem.trim_end().to_string(),
+					"blank" => pem.push('\n'),
+					"text-between" => pem = pem.replace("-----END CERTIFICATE-----\n-----BEGIN", "-----END CERTIFICATE-----\nissuer follows\n\n-----BEGIN"),
+					_ => {}
+				}
 				let o = &mut self.orders[id];
 				o.cert_pem = Some(pem);
 				o.leaf_sha256 = Some(leaf_sha);
@@ -1445,6 +1453,12 @@ impl CaState {
 				let mut r = Resp::problem(status, etype.as_deref(), &format!("scripted {t}"));
 				if parts.get(3) == Some(&"nononce") {
 					r.headers.push(("X-No-Nonce".into(), "1".into()));
+				}
+				// legal spellings of the media type (parameters, case)
+				if parts.get(3) == Some(&"ctparam") {
+					r.set_header("Content-Type", "application/problem+json; charset=utf-8");
+				} else if parts.get(3) == Some(&"ctcase") {
+					r.set_header("Content-Type", "Application/Problem+JSON");
 				}
 				r
 			}
@@ -1525,6 +1539,20 @@ impl CaState {
 					("cert", "truncpem") => {
 						let n = r.body.len() / 3;
 						r.body.truncate(n);
+					}
+					// a sound leaf followed by a damaged later block
+					("cert", "trunc2nd") => {
+						let text = String::from_utf8_lossy(&r.body).to_string();
+						if let Some(i) = text[10..].find("-----BEGIN CERTIFICATE-----") {
+							let cut = 10 + i + 27 + 200.min(text.len().saturating_sub(10 + i + 27 + 1));
+							r.body = text.as_bytes()[..cut.min(text.len())].to_vec();
+						}
+					}
+					("cert", "garbage2nd") => {
+						let text = String::from_utf8_lossy(&r.body).to_string();
+						if let Some(i) = text[10..].find("-----BEGIN CERTIFICATE-----") {
+							r.body = format!("{}-----BEGIN CERTIFICATE-----\nAAAA\n-----END CERTIFICATE-----\n", &text[..10 + i]).into_bytes();
+						}
 					}
 					("cert", "garbagepem") => {
 						r.body = b"-----BEGIN CERTIFICATE-----\nAAAA\n-----END CERTIFICATE-----\n"
